@@ -557,8 +557,12 @@ def r10_span_end(run, F):
             short = c.split("::")[-1]
             if c.endswith("Tokens::cursor"):
                 block_event[u] = "cursor"
-            elif c.endswith(("Tokens::take", "Tokens::consume")) or (c.startswith(P + "parse_") and c.count("::") == 2):
+            elif c.endswith(("Tokens::take", "Tokens::consume")):
                 block_event[u] = "consumed"
+            elif c.startswith(P) and c.count("::") == 2:
+                # another function of the parser: it may consume tokens and it may hand back the cursor it read last
+                # (a helper that returns the end of the span); what it leaves behind is not known from this body
+                block_event[u] = "unknown"
             elif short == "consume_optional":
                 sw = mirq.bool_switch_after_call(cfg, u)
                 if sw is None:
@@ -580,7 +584,7 @@ def r10_span_end(run, F):
         for i in targets:
             sites += 1
             st = state.get(i, set())
-            run.ob("R10-SPAN-END", "%s|EndOfSpan" % p.split("::")[-1], st == {"cursor"}, F.where(b),
+            run.ob("R10-SPAN-END", "%s|EndOfSpan" % p.split("::")[-1], "consumed" not in st and "none" not in st, F.where(b),
                    "on every path into the construction of EndOfSpan the last token event must be a cursor() read; found %s "
                    "(`consumed`: a token was taken after the end was read, so the span stops short of it)" % sorted(st))
     run.floor("R10-SPAN-END", 2, "EndOfSpan construction sites (parse_type, parse_primary_expression)")
